@@ -91,11 +91,11 @@ func AddStandardFilters(fd FilterDictionary) { //nolint: gocyclo
 
 	// number filters
 	fd.AddFilter("abs", math.Abs)
-	fd.AddFilter("ceil", func(a float64) int {
-		return int(math.Ceil(a))
+	fd.AddFilter("ceil", func(a float64) any {
+		return wholeNumber(math.Ceil(a))
 	})
-	fd.AddFilter("floor", func(a float64) int {
-		return int(math.Floor(a))
+	fd.AddFilter("floor", func(a float64) any {
+		return wholeNumber(math.Floor(a))
 	})
 	fd.AddFilter("modulo", func(a, b float64) (float64, error) {
 		if b == 0 {
@@ -325,6 +325,15 @@ func firstWords(s string, n int) string {
 		pos = i
 	}
 	return s[:pos]
+}
+
+// wholeNumber returns the integral float f as an int, or as it is when it lies beyond the
+// range of int (where the conversion would wrap around).
+func wholeNumber(f float64) any {
+	if f >= math.MinInt64 && f < math.MaxInt64 {
+		return int(f)
+	}
+	return f
 }
 
 func joinFilter(a []any, sep func(string) string) any {
